@@ -541,11 +541,97 @@ def make_mt_cases(rng, n_cases):
 
 
 MT_IMPORTS = ["Skel.AndersonCD", "Skel.MockACD", "Skel.Generic", "Skel.Anderson", "Skel.MultiTaskBCD", "Skel.CorrSolvers"]
+# ------------------------------------------------------------------ GroupProxNewton against the ProxNewton mock kernels
+def run_real_gpn(M, cfg, w_init, Xw_init, n):
+    import skglm.solvers.group_prox_newton as gp
+    names = ("_descent_direction", "_backtrack_line_search", "_construct_grad", "_slice_array", "np")
+    saved = {k: getattr(gp, k) for k in names}
+    counts = dict(inner=0)
+
+    def sl_(arr, ws, grp_ptr, grp_indices, fit_intercept=False):          # singleton groups: the stacked slice is arr[ws]
+        return np.array([arr[g] for g in ws], dtype=float)
+
+    def dd(X, y, w, Xw, fit_intercept, grad_ws, datafit, penalty, ws, tol):
+        deltas = [_pn_thr(M, w[j], j) - w[j] for j in ws]
+        Xd = np.zeros(len(Xw))
+        for j, d in zip(ws, deltas):
+            Xd[j % len(Xw)] += d
+        if fit_intercept:
+            db = (M.B - w[-1]) / 4
+            deltas = deltas + [db]
+            Xd = Xd + db
+        return np.array(deltas, dtype=float), Xd
+
+    def bl(X, y, w, Xw, fit_intercept, datafit, penalty, delta, Xdelta, ws):
+        counts["inner"] += 1
+        for idx, j in enumerate(ws):
+            w[j] += delta[idx]
+        if fit_intercept:
+            w[-1] += delta[-1]
+        Xw += Xdelta
+        return np.array([M.g_at(Xw, j) for j in ws])
+
+    def cg(X, y, w, Xw, datafit, ws): return np.array([M.g_at(Xw, j) for j in ws])
+    try:
+        gp._descent_direction, gp._backtrack_line_search, gp._construct_grad, gp._slice_array, gp.np = dd, bl, cg, sl_, _ha.NpProxy()
+        p = M.p
+        X = np.ones((n, p))
+        solver = gp.GroupProxNewton(p0=cfg["p0"], max_iter=cfg["max_iter"], max_pn_iter=cfg["max_pn_iter"], tol=cfg["tol"],
+                                    fit_intercept=cfg["fit_intercept"])
+        w0 = None if w_init is None else np.array(w_init, dtype=float)
+        x0 = None if Xw_init is None else np.array(Xw_init, dtype=float)
+        try:
+            w, obj, stop = solver._solve(X, np.zeros(n), _PNDatafit(M), _GPenalty(M), w0, x0)
+        except (ValueError, IndexError, TypeError, AttributeError, ZeroDivisionError) as e:
+            return dict(err=True, exc=repr(e))
+        return dict(err=False, w=list(map(float, w)), Xw=None if x0 is None else list(map(float, x0)), obj=list(map(float, obj)),
+                    stop=float(stop), iters=len(obj), inner=counts["inner"])
+    finally:
+        for k, v in saved.items():
+            setattr(gp, k, v)
+
+
+def make_gpn_cases(rng, n_cases):
+    cases, dist = [], dict(err=0, iters={}, inner_total=0, warm=0, intercept=0, n_ne_p=0)
+    for k in range(n_cases):
+        M, cfg, w_init, Xw_init, sp, n = _ha.gen_case(rng)
+        cfg = dict(max_iter=cfg["max_iter"], max_pn_iter=rng.choice([0, 1, 2, 5]), p0=cfg["p0"], tol=cfg["tol"], fixpoint=False,
+                   fit_intercept=cfg["fit_intercept"])
+        if w_init is not None and len(w_init) != M.p + cfg["fit_intercept"]:
+            w_init = (w_init + [0.0] * 8)[: M.p + cfg["fit_intercept"]]          # this solver has no length check: keep starts well-formed
+            bb = w_init[-1] if cfg["fit_intercept"] else 0.0
+            Xw_init = [sum(w_init[j] for j in range(M.p) if j % n == i) + bb for i in range(n)]
+        if w_init is not None and rng.random() < 0.15:
+            Xw_init = None
+        obs = run_real_gpn(M, cfg, w_init, Xw_init, n)
+        cfgc = ("{| pn_max_iter := %d; pn_max_pn_iter := %d; pn_p0 := %s; pn_tol := %s; pn_fixpoint := false; pn_fit_intercept := %s; "
+                "pn_p := %d; pn_n := %d |}" % (cfg["max_iter"], cfg["max_pn_iter"], z(cfg["p0"]), q(cfg["tol"]), b(cfg["fit_intercept"]), M.p, n))
+        wi = "None" if w_init is None else f"(Some {vq(w_init)})"
+        xi = "None" if Xw_init is None else f"(Some {vq(Xw_init)})"
+        expr = f"gpn_solve {cfgc} (gpn_mock {M.coq()} {M.p} {b(cfg['fit_intercept'])}) {wi} {xi}"
+        if obs["err"]:
+            o = "{| op_err := true; op_w := []; op_Xw := []; op_obj := []; op_stop := XBad; op_iters := 0; op_inner := 0 |}"
+            has_buf = False
+            dist["err"] += 1
+        else:
+            has_buf = obs["Xw"] is not None
+            o = ("{| op_err := false; op_w := %s; op_Xw := %s; op_obj := %s; op_stop := %s; op_iters := %d; op_inner := %d |}" % (
+                vq(obs["w"]), vq(obs["Xw"]) if has_buf else "[]", lst([xq(x) for x in obs["obj"]]), xq(obs["stop"]), obs["iters"], obs["inner"]))
+            dist["iters"][obs["iters"]] = dist["iters"].get(obs["iters"], 0) + 1
+            dist["inner_total"] += obs["inner"]
+        dist["warm"] += w_init is not None; dist["intercept"] += cfg["fit_intercept"]; dist["n_ne_p"] += n != M.p
+        label = (f"gpn#{k} n_samples={n} cfg={cfg} w_init={w_init} Xw_init={Xw_init} T={M.T} a={M.a} lip={M.lip} "
+                 f"alpha={M.alpha} B={M.B} pos={M.positive} thr={M.thr} -> {obs}")
+        cases.append((label, expr, f"chk_pn {b(has_buf)}", o))
+    return cases, dist
+
+
+GPN_IMPORTS = ["Skel.AndersonCD", "Skel.MockACD", "Skel.Generic", "Skel.ProxNewton", "Skel.GroupProxNewton", "Skel.CorrSolvers"]
 PN_IMPORTS = ["Skel.AndersonCD", "Skel.MockACD", "Skel.Generic", "Skel.ProxNewton", "Skel.CorrSolvers"]
 BCD_IMPORTS = ["Skel.AndersonCD", "Skel.MockACD", "Skel.Generic", "Skel.GroupBCD", "Skel.CorrSolvers"]
 
 SOLVER_TARGETS = ["Skel/CorrSolvers.vo"]
-SOLVER_SOURCES = ["skglm/solvers/gram_cd.py", "skglm/solvers/group_bcd.py", "skglm/solvers/prox_newton.py", "skglm/solvers/fista.py", "skglm/utils/anderson.py", "skglm/solvers/multitask_bcd.py"]
+SOLVER_SOURCES = ["skglm/solvers/gram_cd.py", "skglm/solvers/group_bcd.py", "skglm/solvers/prox_newton.py", "skglm/solvers/fista.py", "skglm/utils/anderson.py", "skglm/solvers/multitask_bcd.py", "skglm/solvers/group_prox_newton.py"]
 
 
 def solver_corr(tier, rng, tag):
@@ -559,16 +645,18 @@ def solver_corr(tier, rng, tag):
     rb = tvlib.run_cases(bc, BCD_IMPORTS, tag + "b", shard=12, jobs=16)
     pc, pdist = make_pn_cases(rng, nb)
     rp = tvlib.run_cases(pc, PN_IMPORTS, tag + "p", shard=12, jobs=16)
+    gc_, gdist_ = make_gpn_cases(rng, nb)
+    rg = tvlib.run_cases(gc_, GPN_IMPORTS, tag + "n", shard=12, jobs=16)
     mc, mdist = make_mt_cases(rng, nb)
     rm = tvlib.run_cases(mc, MT_IMPORTS, tag + "m", shard=12, jobs=16)
     ac = make_aa_cases(rng, 200 if tier == "quick" else 2000)
     ra = tvlib.run_cases(ac, AA_IMPORTS, tag + "a", shard=25, jobs=16)
     fc, fdist = make_fista_cases(rng, 40 if tier == "quick" else 400)
     rf = tvlib.run_cases(fc, FISTA_IMPORTS, tag + "f", shard=6, jobs=16)
-    allc = cases + bc + pc + fc + ac + mc
-    return dict(cases=len(allc), bad=r["bad"] + rb["bad"] + rp["bad"] + rf["bad"] + ra["bad"] + rm["bad"],
-                errors=r["errors"] + rb["errors"] + rp["errors"] + rf["errors"] + ra["errors"] + rm["errors"],
-                distribution=dict(gramcd_end_to_end=dist, groupbcd_mock_traces=bdist, proxnewton_mock_traces=pdist, fista_end_to_end=fdist, multitaskbcd_mock_traces=mdist),
+    allc = cases + bc + pc + fc + ac + mc + gc_
+    return dict(cases=len(allc), bad=r["bad"] + rb["bad"] + rp["bad"] + rf["bad"] + ra["bad"] + rm["bad"] + rg["bad"],
+                errors=r["errors"] + rb["errors"] + rp["errors"] + rf["errors"] + ra["errors"] + rm["errors"] + rg["errors"],
+                distribution=dict(gramcd_end_to_end=dist, groupbcd_mock_traces=bdist, proxnewton_mock_traces=pdist, fista_end_to_end=fdist, multitaskbcd_mock_traces=mdist, groupproxnewton_mock_traces=gdist_),
                 distinct_nontrivial=sum(1 for c in allc if "'obj': []" not in c[0] and "'err': True" not in c[0]),
                 samples=[dict(gramcd=cases[0][0][:500]), dict(groupbcd=bc[0][0][:500])])
 
@@ -584,12 +672,15 @@ def merge_corr(a, b_):
     return out
 
 
-if __name__ == "__main__" and len(__import__("sys").argv) > 3 and __import__("sys").argv[3] in ("bcd", "pn", "fista", "aa", "mt"):
+if __name__ == "__main__" and len(__import__("sys").argv) > 3 and __import__("sys").argv[3] in ("bcd", "pn", "fista", "aa", "mt", "gpn"):
     import sys, tvlib
     rng = random.Random(int(sys.argv[1]))
     if sys.argv[3] == "pn":
         cases, dist = make_pn_cases(rng, int(sys.argv[2]))
         r = tvlib.run_cases(cases, PN_IMPORTS, "pn", shard=12, jobs=16)
+    elif sys.argv[3] == "gpn":
+        cases, dist = make_gpn_cases(rng, int(sys.argv[2]))
+        r = tvlib.run_cases(cases, GPN_IMPORTS, "gpn", shard=12, jobs=16)
     elif sys.argv[3] == "mt":
         cases, dist = make_mt_cases(rng, int(sys.argv[2]))
         r = tvlib.run_cases(cases, MT_IMPORTS, "mt", shard=12, jobs=16)
